@@ -187,6 +187,9 @@ theorem runChild_mono (c : Cfg) (o : Oracle) : ∀ (p : Prog) (h : Handle) (db :
   | .rb n m, h, db => by
     unfold runChild
     exact (markStale_mono h db).trans (gormRollbackTo_mono o h _ _)
+  | .endtx m, h, db => by
+    unfold runChild
+    exact (markStale_mono h db).trans (gormRollback_mono h _)
   | .blk body out tag m, h, db => by
     unfold runChild
     dsimp only
@@ -427,20 +430,22 @@ theorem finishDis_step (h : Handle) (out : Out) (tag : Nat) (x : DB × Handle ×
     of the stack at entry. -/
 mutual
 theorem runChild_step (c : Cfg) (o : Oracle) : ∀ (p : Prog) (h : Handle) (db : DB),
-    h.pool.isCommitter = true → TxStep db (runChild c o h p db).1
-  | .write w m, h, db, hp => by
+    h.pool.isCommitter = true → noEndChild p = true → TxStep db (runChild c o h p db).1
+  | .endtx m, h, db, _, hne => by simp [noEndChild] at hne
+  | .write w m, h, db, hp, _ => by
     unfold runChild
     exact (markStale_step h db).trans (markStale_mono h db).1 (gormWrite_step c o h w _ hp)
-  | .read m, h, db, hp => by
+  | .read m, h, db, hp, _ => by
     unfold runChild
     exact (markStale_step h db).trans (markStale_mono h db).1 (gormQuery_step o h _ hp)
-  | .sp n m, h, db, _ => by
+  | .sp n m, h, db, _, _ => by
     unfold runChild
     exact (markStale_step h db).trans (markStale_mono h db).1 (gormSavePoint_step o h _ _ (fun k hk => by cases hk))
-  | .rb n m, h, db, _ => by
+  | .rb n m, h, db, _, _ => by
     unfold runChild
     exact (markStale_step h db).trans (markStale_mono h db).1 (gormRollbackTo_step o h _ _)
-  | .blk body out tag m, h, db, hp => by
+  | .blk body out tag m, h, db, hp, hne => by
+    have hnb : noEndBody body = true := by rw [noEndChild_blk] at hne; exact hne
     unfold runChild
     dsimp only
     simp only [hp, if_true]
@@ -454,39 +459,41 @@ theorem runChild_step (c : Cfg) (o : Oracle) : ∀ (p : Prog) (h : Handle) (db :
       · exact h0.trans m0 hs
       · have ih := runBody_step c o body
           (nestH (gormSavePoint o h (SpName.auto (markStale h db).calls) (markStale h db)).2)
-          (gormSavePoint o h (SpName.auto (markStale h db).calls) (markStale h db)).1 (by simpa using hp)
+          (gormSavePoint o h (SpName.auto (markStale h db).calls) (markStale h db)).1 (by simpa using hp) hnb
         have mb := (runBody_mono c o body
           (nestH (gormSavePoint o h (SpName.auto (markStale h db).calls) (markStale h db)).2)
           (gormSavePoint o h (SpName.auto (markStale h db).calls) (markStale h db)).1).1
         exact (h0.trans m0 hs).trans (Nat.le_trans m0 ms)
           (ih.trans mb (finishNested_step o _ _ out tag _))
-    · have ih := runBody_step c o body (nestH h) (markStale h db) (by simpa using hp)
+    · have ih := runBody_step c o body (nestH h) (markStale h db) (by simpa using hp) hnb
       have mb := (runBody_mono c o body (nestH h) (markStale h db)).1
       exact h0.trans m0 (ih.trans mb (finishDis_step h out tag _))
-  | .man body fin m, h, db, hp => by
+  | .man body fin m, h, db, hp, _ => by
     unfold runChild
     dsimp only
     have hb := gormBegin_committer o h (markStale h db) hp
     rw [if_pos hb.2, hb.1]
     exact markStale_step h db
-  | .dv k body m, h, db, hp => by
-    have ih := runBody_step c o body (derive k h) (markStale h db) (by rw [derive_isCommitter]; exact hp)
+  | .dv k body m, h, db, hp, hne => by
+    have hnb : noEndBody body = true := by rw [noEndChild_dv] at hne; exact hne
+    have ih := runBody_step c o body (derive k h) (markStale h db) (by rw [derive_isCommitter]; exact hp) hnb
     unfold runChild
     generalize runBody c o (derive k h) body (markStale h db) = r at ih
     obtain ⟨db1, h1, r1⟩ := r
     exact (markStale_step h db).trans (markStale_mono h db).1 ih
 theorem runBody_step (c : Cfg) (o : Oracle) : ∀ (ps : List Prog) (h : Handle) (db : DB),
-    h.pool.isCommitter = true → TxStep db (runBody c o h ps db).1
-  | [], h, db, _ => by unfold runBody; exact TxStep.refl db
-  | p :: ps, h, db, hp => by
-    have ih1 := runChild_step c o p h db hp
+    h.pool.isCommitter = true → noEndBody ps = true → TxStep db (runBody c o h ps db).1
+  | [], h, db, _, _ => by unfold runBody; exact TxStep.refl db
+  | p :: ps, h, db, hp, hne => by
+    have hnn : noEndChild p = true ∧ noEndBody ps = true := by simpa [noEndBody_cons] using hne
+    have ih1 := runChild_step c o p h db hp hnn.1
     have m1 := (runChild_mono c o p h db).1
     have hpool := (runChild_frame c o p h db (by rw [hp]; exact wfChild_true p)).1
     unfold runBody
     generalize runChild c o h p db = r1 at ih1 m1 hpool
     obtain ⟨db1, h1, r⟩ := r1
     dsimp only at ih1 m1 hpool ⊢
-    have ih2 := runBody_step c o ps h1 db1 (by rw [hpool]; exact hp)
+    have ih2 := runBody_step c o ps h1 db1 (by rw [hpool]; exact hp) hnn.2
     split
     · exact ih1.trans m1 ih2
     · split
@@ -604,7 +611,7 @@ theorem findSp_own (n : Nat) (v : Store) (S saves : List (SpName × Store))
 theorem nested_local (c : Cfg) (o : Oracle) (h : Handle) (hp : h.pool.isCommitter = true) (he : h.err = [])
     (hdis : (c.dis || h.dis) = false) (db : DB) (v : Store) (S : List (SpName × Store))
     (ht : db.tx = some { cur := v, saves := S }) (hS : ∀ k s, (SpName.auto k, s) ∈ S → k < db.calls)
-    (body : List Prog) (out : Out) (tag : Nat) (must : Bool)
+    (body : List Prog) (out : Out) (tag : Nat) (must : Bool) (hnb : noEndBody body = true)
     (hr : (runChild c o h (.blk body out tag must) db).2.2 ≠ .ok)
     (hf : (runChild c o h (.blk body out tag must) db).1.rbFault = false)
     (hh : (runChild c o h (.blk body out tag must) db).2.1.err = []) :
@@ -622,7 +629,7 @@ theorem nested_local (c : Cfg) (o : Oracle) (h : Handle) (hp : h.pool.isCommitte
     have hne : ¬ (h1.err ≠ []) := by simp [he]
     rw [if_neg hne] at hr hf hh ⊢
     have hpn : (nestH h1).pool.isCommitter = true := by simpa using hp
-    obtain ⟨t2, ht2, hext⟩ := runBody_step c o body (nestH h1) db1 hpn _ htx1
+    obtain ⟨t2, ht2, hext⟩ := runBody_step c o body (nestH h1) db1 hpn hnb _ htx1
     have hcm2 := ((runBody_frame c o body (nestH h1) db1 (by rw [hpn]; exact wfBody_true body)).2.1 hpn).1
     generalize runBody c o (nestH h1) body db1 = b at *
     obtain ⟨db2, inner, r2⟩ := b
@@ -675,6 +682,7 @@ def noRb : Prog → Bool
   | .write _ _ => true
   | .read _ => true
   | .sp _ _ => true
+  | .endtx _ => true
 def noRbs : List Prog → Bool
   | [] => true
   | p :: ps => noRb p && noRbs ps
@@ -874,17 +882,18 @@ theorem findSp_fresh (n : Nat) (v : Store) (new S : List (SpName × Store)) (hf 
 
 mutual
 theorem runChild_simTx (c : Cfg) (o : Oracle) : ∀ (p : Prog) (h : Handle) (db : DB) (t : TxSt),
-    h.pool.isCommitter = true → h.err = [] → db.tx = some t → noRb p = true →
+    h.pool.isCommitter = true → h.err = [] → db.tx = some t → noRb p = true → noEndChild p = true →
     (runChild c o h p db).1.stale = false → (runChild c o h p db).1.rbFault = false →
     SimTx h db t (runChild c o h p db) (specChild o (envOf c h) p t.cur db.calls)
-  | .write w m, h, db, t, hp, he, ht, _, _, _ => by
+  | .endtx m, h, db, t, _, _, _, _, hne, _, _ => by simp [noEndChild] at hne
+  | .write w m, h, db, t, hp, he, ht, _, _, _, _ => by
     have hw := gormWrite_tx c o h w db t hp he ht
     unfold runChild specChild
     rw [markStale_clean h db he]
     rw [envOf_effCond]
     simp only [envOf, hp, Bool.true_or, if_true]
     exact ⟨hw.2.2.1, hw.2.1, hw.2.2.2, ⟨[], hw.1, Fresh.nil _⟩, Or.inl rfl⟩
-  | .read m, h, db, t, hp, he, ht, _, _, _ => by
+  | .read m, h, db, t, hp, he, ht, _, _, _, _ => by
     have hq := gormQuery_tx o h db t hp he ht
     unfold runChild specChild
     rw [markStale_clean h db he]
@@ -892,7 +901,7 @@ theorem runChild_simTx (c : Cfg) (o : Oracle) : ∀ (p : Prog) (h : Handle) (db 
     · rw [hq.2.1]; split <;> rfl
     · dsimp only; rw [hq.2.2.2]; split <;> rfl
     · dsimp only; rw [hq.1]; split <;> rfl
-  | .sp n m, h, db, t, hp, he, ht, _, _, _ => by
+  | .sp n m, h, db, t, hp, he, ht, _, _, _, _ => by
     obtain ⟨hc, hcm, hT, hF⟩ := gormSavePoint_clean o h (.manual n) db t he ht
     unfold runChild specChild
     rw [markStale_clean h db he]
@@ -907,8 +916,8 @@ theorem runChild_simTx (c : Cfg) (o : Oracle) : ∀ (p : Prog) (h : Handle) (db 
       refine ⟨hcm, hc, ?_, ⟨[], htx, Fresh.nil _⟩, Or.inr ⟨by rw [hh]; exact hne, rfl⟩⟩
       rw [hh, ← spErr_spec c h db.calls he]
       simp [resOf, hne]
-  | .rb n m, h, db, t, _, _, _, hn, _, _ => by simp [noRb] at hn
-  | .man body fin m, h, db, t, hp, he, ht, _, _, _ => by
+  | .rb n m, h, db, t, _, _, _, hn, _, _, _ => by simp [noRb] at hn
+  | .man body fin m, h, db, t, hp, he, ht, _, _, _, _ => by
     have hb := gormBegin_committer o h (markStale h db) hp
     have hbe := gormBegin_committer_err o h (markStale h db) hp he
     unfold runChild specChild
@@ -916,19 +925,21 @@ theorem runChild_simTx (c : Cfg) (o : Oracle) : ∀ (p : Prog) (h : Handle) (db 
     rw [if_pos hb.2, hb.1, hbe, markStale_clean h db he]
     simp only [envOf, hp, if_true]
     exact ⟨rfl, rfl, rfl, ⟨[], by rw [ht]; rfl, Fresh.nil _⟩, Or.inl rfl⟩
-  | .dv k body m, h, db, t, hp, he, ht, hn, hs, hf => by
+  | .dv k body m, h, db, t, hp, he, ht, hn, hne, hs, hf => by
     have hnb : noRbs body = true := by simpa [noRb] using hn
+    have hneb : noEndBody body = true := by rw [noEndChild_dv] at hne; exact hne
     have hrun : runChild c o h (.dv k body m) db =
         ((runBody c o (derive k h) body db).1, h, (runBody c o (derive k h) body db).2.2) := by
       rw [runChild, markStale_clean h db he]
     rw [hrun] at hs hf ⊢
     have ih := runBody_simTx c o body (derive k h) db t (by rw [derive_isCommitter]; exact hp)
-      (by rw [derive_err]; exact he) ht hnb hs hf
+      (by rw [derive_err]; exact he) ht hnb hneb hs hf
     rw [envOf_derive] at ih
     unfold specChild
     exact ⟨ih.1, ih.2.1, ih.2.2.1, ih.2.2.2.1, Or.inl rfl⟩
-  | .blk body out tag m, h, db, t, hp, he, ht, hn, hs, hf => by
+  | .blk body out tag m, h, db, t, hp, he, ht, hn, hne, hs, hf => by
     have hnb : noRbs body = true := by simpa [noRb] using hn
+    have hneb : noEndBody body = true := by rw [noEndChild_blk] at hne; exact hne
     cases hd : (c.dis || h.dis)
     · -- nested: SAVEPOINT / ROLLBACK TO
       rw [runChild_blk_nested c o h body out tag m db hp hd, markStale_clean h db he] at hs hf ⊢
@@ -951,7 +962,7 @@ theorem runChild_simTx (c : Cfg) (o : Oracle) : ∀ (p : Prog) (h : Handle) (db 
           · rfl
           · rw [mfin.2.2 hx] at hf; exact absurd hf (by simp)
         have ih := runBody_simTx c o body (nestH h) (gormSavePoint o h (.auto db.calls) db).1 _ (by simpa using hp)
-          (by simpa using he) htx1 hnb hsb hfb
+          (by simpa using he) htx1 hnb hneb hsb hfb
         rw [envOf_nest] at ih
         rw [hc1] at ih
         dsimp only at ih
@@ -997,7 +1008,7 @@ theorem runChild_simTx (c : Cfg) (o : Oracle) : ∀ (p : Prog) (h : Handle) (db 
         cases hx : (runBody c o (nestH h) body db).1.rbFault
         · rfl
         · rw [mfin.2.2 hx] at hf; exact absurd hf (by simp)
-      have ih := runBody_simTx c o body (nestH h) db t (by simpa using hp) (by simpa using he) ht hnb hsb hfb
+      have ih := runBody_simTx c o body (nestH h) db t (by simpa using hp) (by simpa using he) ht hnb hneb hsb hfb
       rw [envOf_nest] at ih
       generalize specBody o (envOf c h).nest body t.cur db.calls = y at ih ⊢
       generalize runBody c o (nestH h) body db = b at ih ⊢
@@ -1011,14 +1022,15 @@ theorem runChild_simTx (c : Cfg) (o : Oracle) : ∀ (p : Prog) (h : Handle) (db 
       exact ⟨by rw [fnEnd_committed, icm], by rw [fnEnd_calls]; exact icalls, fnEnd_res _ _ _ _ _,
         ⟨new, by rw [fnEnd_tx, itx], ifresh⟩, Or.inl rfl⟩
 theorem runBody_simTx (c : Cfg) (o : Oracle) : ∀ (ps : List Prog) (h : Handle) (db : DB) (t : TxSt),
-    h.pool.isCommitter = true → h.err = [] → db.tx = some t → noRbs ps = true →
+    h.pool.isCommitter = true → h.err = [] → db.tx = some t → noRbs ps = true → noEndBody ps = true →
     (runBody c o h ps db).1.stale = false → (runBody c o h ps db).1.rbFault = false →
     SimTx h db t (runBody c o h ps db) (specBody o (envOf c h) ps t.cur db.calls)
-  | [], h, db, t, _, _, ht, _, _, _ => by
+  | [], h, db, t, _, _, ht, _, _, _, _ => by
     unfold runBody specBody
     exact ⟨rfl, rfl, rfl, ⟨[], by rw [ht]; rfl, Fresh.nil _⟩, Or.inl rfl⟩
-  | p :: ps, h, db, t, hp, he, ht, hn, hs, hf => by
+  | p :: ps, h, db, t, hp, he, ht, hn, hne, hs, hf => by
     have hnn : noRb p = true ∧ noRbs ps = true := by simpa [noRbs] using hn
+    have hee : noEndChild p = true ∧ noEndBody ps = true := by simpa [noEndBody_cons] using hne
     have m2 := runBody_mono c o ps (runChild c o h p db).2.1 (runChild c o h p db).1
     rw [runBody_cons] at hs hf ⊢
     rw [specBody_cons]
@@ -1034,7 +1046,7 @@ theorem runBody_simTx (c : Cfg) (o : Oracle) : ∀ (ps : List Prog) (h : Handle)
       · split at hf
         · rw [hx] at hf; exact absurd hf (by simp)
         · rw [m2.2.2 hx] at hf; exact absurd hf (by simp)
-    have ih1 := runChild_simTx c o p h db t hp he ht hnn.1 hs1 hf1
+    have ih1 := runChild_simTx c o p h db t hp he ht hnn.1 hee.1 hs1 hf1
     have m1 := (runChild_mono c o p h db).1
     generalize specChild o (envOf c h) p t.cur db.calls = y at ih1 ⊢
     generalize runChild c o h p db = x at ih1 hs hf m1 ⊢
@@ -1049,7 +1061,7 @@ theorem runBody_simTx (c : Cfg) (o : Oracle) : ∀ (ps : List Prog) (h : Handle)
     · rw [if_neg hstop] at hs hf ⊢
       rw [if_neg hstop]
       rcases ihand with rfl | ⟨hpe, hpp⟩
-      · have ih2 := runBody_simTx c o ps h1 db1 _ hp he itx hnn.2 hs hf
+      · have ih2 := runBody_simTx c o ps h1 db1 _ hp he itx hnn.2 hee.2 hs hf
         rw [icalls] at ih2
         obtain ⟨jcm, jcalls, jres, ⟨new2, jtx, jfresh⟩, jhand⟩ := ih2
         refine ⟨jcm.trans icm, jcalls, jres, ⟨new2 ++ new, by rw [jtx]; simp, ?_⟩, jhand⟩
@@ -1387,13 +1399,15 @@ def SimTop (h : Handle) (x : DB × Handle × Res) (s : Store × Nat × Res) : Pr
 mutual
 theorem runChild_simTop (c : Cfg) (o : Oracle) : ∀ (p : Prog) (h : Handle) (db : DB),
     h.pool.isCommitter = false → h.err = [] → db.tx = none → wfChild false p = true → noRb p = true →
+    noEndChild p = true →
     (runChild c o h p db).1.stale = false → (runChild c o h p db).1.rbFault = false →
     SimTop h (runChild c o h p db) (specChild o (envOf c h) p db.committed db.calls)
-  | .write w m, h, db, hp, he, hd, _, _, _, _ => by
+  | .endtx m, h, db, _, _, _, _, _, hne, _, _ => by simp [noEndChild] at hne
+  | .write w m, h, db, hp, he, hd, _, _, _, _, _ => by
     have hw := gormWrite_top c o h w m db hp he hd
     rw [runChild, markStale_clean h db he]
     exact ⟨hw.1, hw.2.1, hw.2.2.1, hw.2.2.2, rfl⟩
-  | .read m, h, db, hp, he, hd, _, _, _, _ => by
+  | .read m, h, db, hp, he, hd, _, _, _, _, _ => by
     have hq := gormQuery_top o h db hp he
     rw [runChild, markStale_clean h db he]
     unfold specChild
@@ -1401,22 +1415,24 @@ theorem runChild_simTop (c : Cfg) (o : Oracle) : ∀ (p : Prog) (h : Handle) (db
     · rw [hq.2.2.1]; split <;> rfl
     · rw [hq.2.1]; split <;> rfl
     · dsimp only; rw [hq.2.2.2]; split <;> rfl
-  | .sp n m, h, db, _, _, _, hwf, _, _, _ => by simp [wfChild] at hwf
-  | .rb n m, h, db, _, _, _, hwf, _, _, _ => by simp [wfChild] at hwf
-  | .dv k body m, h, db, hp, he, hd, hwf, hn, hs, hf => by
+  | .sp n m, h, db, _, _, _, hwf, _, _, _, _ => by simp [wfChild] at hwf
+  | .rb n m, h, db, _, _, _, hwf, _, _, _, _ => by simp [wfChild] at hwf
+  | .dv k body m, h, db, hp, he, hd, hwf, hn, hne, hs, hf => by
     have hnb : noRbs body = true := by simpa [noRb] using hn
+    have hneb : noEndBody body = true := by rw [noEndChild_dv] at hne; exact hne
     have hwb : wfBody false body = true := by simpa [wfChild] using hwf
     have hrun : runChild c o h (.dv k body m) db =
         ((runBody c o (derive k h) body db).1, h, (runBody c o (derive k h) body db).2.2) := by
       rw [runChild, markStale_clean h db he]
     rw [hrun] at hs hf ⊢
     have ih := runBody_simTop c o body (derive k h) db (by rw [derive_isCommitter]; exact hp)
-      (by rw [derive_err]; exact he) hd hwb hnb hs hf
+      (by rw [derive_err]; exact he) hd hwb hnb hneb hs hf
     rw [envOf_derive] at ih
     unfold specChild
     exact ⟨ih.1, ih.2.1, ih.2.2.1, ih.2.2.2.1, rfl⟩
-  | .blk body out tag m, h, db, hp, he, hd, _, hn, hs, hf => by
+  | .blk body out tag m, h, db, hp, he, hd, _, hn, hne, hs, hf => by
     have hnb : noRbs body = true := by simpa [noRb] using hn
+    have hneb : noEndBody body = true := by rw [noEndChild_blk] at hne; exact hne
     rw [runChild_blk_top c o h body out tag m db hp, markStale_clean h db he] at hs hf ⊢
     rw [specChild_blk_root o (envOf c h) body out tag m db.committed db.calls hp]
     obtain ⟨bc, bcm, bT, bF⟩ := gormBegin_top c o h db hp he
@@ -1426,7 +1442,7 @@ theorem runChild_simTop (c : Cfg) (o : Oracle) : ∀ (p : Prog) (h : Handle) (db
       rw [if_neg hne] at hs hf ⊢
       simp only [Bool.false_eq_true, if_false]
       have mfin := finishRoot_mono o h out tag (runBody c o (gormBegin o h db).2 body (gormBegin o h db).1)
-      have ih := runBody_simTx c o body (gormBegin o h db).2 (gormBegin o h db).1 _ bpool berr btx hnb
+      have ih := runBody_simTx c o body (gormBegin o h db).2 (gormBegin o h db).1 _ bpool berr btx hnb hneb
         (stale_false_of_mono mfin hs) (rbFault_false_of_mono mfin hf)
       have hpool := (runBody_frame c o body (gormBegin o h db).2 (gormBegin o h db).1
         (by rw [bpool]; exact wfBody_true body)).1
@@ -1447,8 +1463,9 @@ theorem runChild_simTop (c : Cfg) (o : Oracle) : ∀ (p : Prog) (h : Handle) (db
       rw [if_pos (by rw [berr]; simp)]
       simp only [if_true]
       exact ⟨by rw [btx]; exact hd, bcm, bc, by rw [berr], rfl⟩
-  | .man body fin m, h, db, hp, he, hd, _, hn, hs, hf => by
+  | .man body fin m, h, db, hp, he, hd, _, hn, hne, hs, hf => by
     have hnb : noRbs body = true := by simpa [noRb] using hn
+    have hneb : noEndBody body = true := by rw [noEndChild_man] at hne; exact hne
     rw [runChild_man_eq c o h body fin m db, markStale_clean h db he] at hs hf ⊢
     rw [specChild_man_root o (envOf c h) body fin m db.committed db.calls hp]
     obtain ⟨bc, bcm, bT, bF⟩ := gormBegin_top c o h db hp he
@@ -1458,7 +1475,7 @@ theorem runChild_simTop (c : Cfg) (o : Oracle) : ∀ (p : Prog) (h : Handle) (db
       rw [if_neg hne] at hs hf ⊢
       simp only [Bool.false_eq_true, if_false]
       have mfin := finishMan_mono o h fin (runBody c o (gormBegin o h db).2 body (gormBegin o h db).1)
-      have ih := runBody_simTx c o body (gormBegin o h db).2 (gormBegin o h db).1 _ bpool berr btx hnb
+      have ih := runBody_simTx c o body (gormBegin o h db).2 (gormBegin o h db).1 _ bpool berr btx hnb hneb
         (stale_false_of_mono mfin hs) (rbFault_false_of_mono mfin hf)
       have hpool := (runBody_frame c o body (gormBegin o h db).2 (gormBegin o h db).1
         (by rw [bpool]; exact wfBody_true body)).1
@@ -1480,13 +1497,15 @@ theorem runChild_simTop (c : Cfg) (o : Oracle) : ∀ (p : Prog) (h : Handle) (db
       exact ⟨by rw [btx]; exact hd, bcm, bc, by rw [berr], rfl⟩
 theorem runBody_simTop (c : Cfg) (o : Oracle) : ∀ (ps : List Prog) (h : Handle) (db : DB),
     h.pool.isCommitter = false → h.err = [] → db.tx = none → wfBody false ps = true → noRbs ps = true →
+    noEndBody ps = true →
     (runBody c o h ps db).1.stale = false → (runBody c o h ps db).1.rbFault = false →
     SimTop h (runBody c o h ps db) (specBody o (envOf c h) ps db.committed db.calls)
-  | [], h, db, _, _, hd, _, _, _, _ => by
+  | [], h, db, _, _, hd, _, _, _, _, _ => by
     unfold runBody specBody
     exact ⟨hd, rfl, rfl, rfl, rfl⟩
-  | p :: ps, h, db, hp, he, hd, hwf, hn, hs, hf => by
+  | p :: ps, h, db, hp, he, hd, hwf, hn, hne, hs, hf => by
     have hnn : noRb p = true ∧ noRbs ps = true := by simpa [noRbs] using hn
+    have hee : noEndChild p = true ∧ noEndBody ps = true := by simpa [noEndBody_cons] using hne
     have hww : wfChild false p = true ∧ wfBody false ps = true := by simpa [wfBody] using hwf
     have m2 := runBody_mono c o ps (runChild c o h p db).2.1 (runChild c o h p db).1
     rw [runBody_cons] at hs hf ⊢
@@ -1499,7 +1518,7 @@ theorem runBody_simTop (c : Cfg) (o : Oracle) : ∀ (ps : List Prog) (h : Handle
       split at hf
       · exact hf
       · exact rbFault_false_of_mono m2 hf
-    have ih1 := runChild_simTop c o p h db hp he hd hww.1 hnn.1 hs1 hf1
+    have ih1 := runChild_simTop c o p h db hp he hd hww.1 hnn.1 hee.1 hs1 hf1
     generalize specChild o (envOf c h) p db.committed db.calls = y at ih1 ⊢
     generalize runChild c o h p db = x at ih1 hs hf ⊢
     obtain ⟨db1, h1, r1⟩ := x
@@ -1512,7 +1531,7 @@ theorem runBody_simTop (c : Cfg) (o : Oracle) : ∀ (ps : List Prog) (h : Handle
       exact ⟨itx, icm, icalls, rfl, rfl⟩
     · rw [if_neg hstop] at hs hf ⊢
       rw [if_neg hstop]
-      have ih2 := runBody_simTop c o ps h1 db1 hp he itx hww.2 hnn.2 hs hf
+      have ih2 := runBody_simTop c o ps h1 db1 hp he itx hww.2 hnn.2 hee.2 hs hf
       rw [icm, icalls] at ih2
       exact ih2
 end
@@ -1522,7 +1541,7 @@ end
     was injected into a ROLLBACK TO, then the committed store and the result are exactly those of the functional reference
     (started at the same committed store and call counter); no transaction is left open. -/
 theorem run_refines_gen (c : Cfg) (o : Oracle) (ps : List Prog) (db : DB)
-    (hwf : wfBody false ps = true) (hn : noRbs ps = true) (hd : db.tx = none)
+    (hwf : wfBody false ps = true) (hn : noRbs ps = true) (hne : noEndBody ps = true) (hd : db.tx = none)
     (hs : (run c o ps db).1.stale = false) (hf : (run c o ps db).1.rbFault = false) :
     (run c o ps db).1.tx = none ∧
     (run c o ps db).1.committed = (specBody o { inTx := false, skip := c.skip, dis := c.dis } ps db.committed db.calls).1 ∧
@@ -1533,15 +1552,15 @@ theorem run_refines_gen (c : Cfg) (o : Oracle) (ps : List Prog) (db : DB)
   have henv : envOf c c.root = { inTx := false, skip := c.skip, dis := c.dis } := by
     unfold envOf; rw [hroot]; simp [Cfg.root]
   unfold run at hs hf ⊢
-  have sim := runBody_simTop c o ps c.root db hroot rfl hd hwf hn hs hf
+  have sim := runBody_simTop c o ps c.root db hroot rfl hd hwf hn hne hs hf
   rw [henv] at sim
   exact ⟨sim.1, sim.2.1, sim.2.2.1, sim.2.2.2.1⟩
 
 theorem run_refines (c : Cfg) (o : Oracle) (ps : List Prog) (db : DB)
-    (hwf : wfBody false ps = true) (hn : noRbs ps = true) (hd : db.tx = none) (hc : db.calls = 0)
+    (hwf : wfBody false ps = true) (hn : noRbs ps = true) (hne : noEndBody ps = true) (hd : db.tx = none) (hc : db.calls = 0)
     (hs : (run c o ps db).1.stale = false) (hf : (run c o ps db).1.rbFault = false) :
     (run c o ps db).1.committed = (spec c o ps db.committed).1 ∧ (run c o ps db).2 = (spec c o ps db.committed).2 := by
-  have h := run_refines_gen c o ps db hwf hn hd hs hf
+  have h := run_refines_gen c o ps db hwf hn hne hd hs hf
   rw [hc] at h
   unfold spec
   exact ⟨h.2.1, h.2.2.2⟩
